@@ -42,6 +42,7 @@ type Prog struct {
 	byName  map[string]*ssa.Function
 	Tags    string
 	NumPkgs int
+	eff     *Effects
 }
 
 // Load loads /repo's current working tree.
